@@ -188,7 +188,9 @@ func (m *MTProto) makeRequest(data tl.Object, expectedTypes ...reflect.Type) (an
 		return nil, errors.Wrap(err, "sending message")
 	}
 
+	verifPoint("call.sent", 0)
 	response := <-resp
+	verifPoint("call.got", 0)
 
 	switch r := response.(type) {
 	case *objects.RpcError:
@@ -202,6 +204,7 @@ func (m *MTProto) makeRequest(data tl.Object, expectedTypes ...reflect.Type) (an
 		return m.makeRequest(data, expectedTypes...)
 
 	case *errorSessionConfigsChanged:
+		verifPoint("call.retry", 0)
 		return m.makeRequest(data, expectedTypes...)
 
 	}
@@ -273,6 +276,7 @@ func (m *MTProto) startReadingResponses(ctx context.Context) {
 					if err != nil {
 						m.warnError(errors.Wrap(err, "can't reconnect"))
 					}
+					verifPoint("reconnect.done", 0)
 				default:
 					check(err)
 				}
@@ -299,6 +303,7 @@ func (m *MTProto) readMsg() error {
 		}
 	}
 
+	verifPoint("recv.frame", int64(response.GetMsgID()))
 	if m.serviceModeActivated {
 		var obj tl.Object
 		// сервисные сообщения ГАРАНТИРОВАННО в теле содержат TL.
@@ -329,6 +334,7 @@ func (m *MTProto) processResponse(msg messages.Common) error {
 		return errors.Wrap(err, "unmarshaling response")
 	}
 
+	verifPoint("recv.dispatch", int64(msg.GetMsgID()))
 messageTypeSwitching:
 	switch message := data.(type) {
 	case *objects.MessageContainer:
@@ -341,12 +347,14 @@ messageTypeSwitching:
 
 	case *objects.BadServerSalt:
 		m.serverSalt = message.NewSalt
+		verifPoint("salt.adopt", message.NewSalt)
 		err := m.SaveSession()
 		check(err)
 
 		m.mutex.Lock()
 		for _, k := range m.responseChannels.Keys() {
 			v, _ := m.responseChannels.Get(k)
+			verifPoint("salt.notify", int64(k))
 			v <- &errorSessionConfigsChanged{}
 		}
 		m.mutex.Unlock()
@@ -397,6 +405,7 @@ messageTypeSwitching:
 	}
 
 	if (msg.GetSeqNo() & 1) != 0 {
+		verifPoint("ack.before", int64(msg.GetMsgID()))
 		_, err := m.MakeRequest(&objects.MsgsAck{MsgIDs: []int64{int64(msg.GetMsgID())}})
 		if err != nil {
 			return errors.Wrap(err, "sending ack")
